@@ -19,11 +19,12 @@ func VerifGetAPIKey(
 	return s.getAPIKey(addr, user, pass, logFH)
 }
 
-// VerifHTTPPrefixGetLog runs httpPrefixGetLog (apiRE, DoLog) with the given
-// urlPrefix against transport rt.
+// VerifHTTPPrefixGetLog runs httpPrefixGetLog (logging with masked prefix,
+// DoLog) for device address addr and API key key against transport rt.
 func VerifHTTPPrefixGetLog(
-	urlPrefix, uri string, rt http.RoundTripper, logFH *os.File,
+	addr, key, uri string, rt http.RoundTripper, logFH *os.File,
 ) ([]byte, error) {
-	s := &State{client: &http.Client{Transport: rt}, urlPrefix: urlPrefix}
+	s := &State{client: &http.Client{Transport: rt}}
+	s.setAPIKey(addr, key)
 	return s.httpPrefixGetLog(uri, logFH)
 }
